@@ -85,9 +85,12 @@ def dumpSet (els : List Nat) : String :=
 
 /-- representation part: `statistics()` (minus the allocator-dependent fields), `serialized_size()`,
     hash of the serialised bytes -/
-def dumpRepr (b : Bitmap) : String :=
-  let st := Bitmap.statistics b
-  s!"nc={st.nContainers} na={st.nArray} nb={st.nBitset} va={st.valuesArray} vb={st.valuesBitset} card={st.cardinality} smin={showOpt st.minValue} smax={showOpt st.maxValue} ssz={Bitmap.serializedSize b} sh={hex64 (fnv (Bitmap.serialize b))}"
+def dumpRepr (b : Bitmap) (ovf : Bool := true) : Option String :=
+  -- the mirrored single-loop `statistics()` and the encoder with the exact `u64` arithmetic of the cardinality
+  -- field (`none` = its overflow panic on an empty container; never for a well-formed value)
+  let st := Bitmap.statisticsM b
+  (Bitmap.serializeM ovf b).map fun bytes =>
+  s!"nc={st.nContainers} na={st.nArray} nb={st.nBitset} va={st.valuesArray} vb={st.valuesBitset} card={st.cardinality} smin={showOpt st.minValue} smax={showOpt st.maxValue} ssz={Bitmap.serializedSize b} sh={hex64 (fnv bytes)}"
 
 /-- well-formedness as a runtime check (the decidable `WF` of the proofs, executable form) -/
 def storeWF : Store → Bool
